@@ -7,6 +7,7 @@ import (
 	"unsafe"
 
 	"github.com/zishang520/engine.io/v2/config"
+	"github.com/zishang520/engine.io/v2/transports"
 	"github.com/zishang520/engine.io/v2/types"
 	"verifrt/vsched"
 )
@@ -188,6 +189,34 @@ func upBody(u upCase) vsched.Body { return upBodyFor(u, "C08") }
 // upBodyFor runs the scenario with the oracle of the given property (C08: upgrade automaton; C03:
 // lifecycle of the session across the attempt; C04: registry at every quiescent point and at the end).
 func upBodyFor(u upCase, oracle string) vsched.Body {
+	inner := upBodyInner(u, oracle)
+	keep := map[string][]string{
+		"C01": {"outbound-across-upgrade", "old-transport-outbound", "panic", "script-blocked"},
+		"C18": {"callbacks-across-upgrade", "callback-before-flush", "flushed-twice", "panic"},
+		"C12": {"close-count", "close-reason", "candidate-leaked", "table-not-empty", "panic"},
+	}[oracle]
+	if keep == nil {
+		return inner
+	}
+	return func(x *vsched.Exec) {
+		inner(x)
+		var out []string
+		for _, f := range x.Failures {
+			for _, k := range keep {
+				if strings.HasPrefix(f, k) {
+					out = append(out, f)
+					break
+				}
+			}
+		}
+		x.Failures = out
+	}
+}
+
+func upBodyInner(u upCase, oracle string) vsched.Body {
+	if oracle != "C03" && oracle != "C04" {
+		oracle = "C08"
+	}
 	return func(x *vsched.Exec) {
 		w := NewWorld(x, upOpts())
 		if oracle == "C04" {
@@ -205,6 +234,15 @@ func upBodyFor(u upCase, oracle string) vsched.Body {
 		var sentApp []string // application sends, in order
 		scriptDone := false
 		sentUpgrade := false
+		var cbRan []string
+		var cbSeq []int
+		closeFalseAtMs := 0
+		if u.word == "L" {
+			closeFalseAtMs = 150 // while the late-pong client is between pong and upgrade
+		}
+		if u.word == "C" && u.pending {
+			closeFalseAtMs = 100 // the instant at which the noop releases the poll and the client upgrades
+		}
 		staleChecked, staleUpgrading, staleThirdPong, staleSecondEntertained := false, false, false, false
 		collect := func(r *Resp) {
 			if r == nil || !r.wrote || r.Code != 200 {
@@ -291,12 +329,42 @@ func upBodyFor(u upCase, oracle string) vsched.Body {
 				scriptDone = true
 			})
 		}
-		switch u.context {
+		ctxBase := strings.TrimSuffix(u.context, "+slowflush")
+		if ctxBase != u.context {
+			// an application flush listener that takes a while (once): the flush that announced a batch is
+			// still inside its listeners while the upgrade goes on
+			sleptOnce := false
+			s.rec.Sock.On("flush", func(...any) {
+				if !sleptOnce {
+					sleptOnce = true
+					vsched.Sleep(150 * time.Millisecond)
+				}
+			})
+		}
+		switch ctxBase {
 		case "send":
 			vsched.GoNamed("app", func() {
 				w.BeginAction()
 				appSend("a1")
 				appSend("a2")
+			})
+		case "send-cb":
+			vsched.GoNamed("app", func() {
+				w.BeginAction()
+				for _, d := range []string{"a1", "a2", "a3"} {
+					d := d
+					sentApp = append(sentApp, d)
+					s.rec.Sock.Send(types.NewStringBufferString(d), nil, func(transports.Transport) {
+						cbRan = append(cbRan, d)
+						cbSeq = append(cbSeq, len(w.Events))
+					})
+				}
+			})
+		case "close-false":
+			vsched.GoNamed("act:close-false", func() {
+				w.BeginAction()
+				vsched.Sleep(time.Duration(closeFalseAtMs) * time.Millisecond)
+				s.rec.Sock.Close(false)
 			})
 		case "close":
 			vsched.GoNamed("act:close-true", func() {
@@ -372,6 +440,10 @@ func upBodyFor(u upCase, oracle string) vsched.Body {
 		// second phase: past the upgrade timeout
 		x.Run(x.Now() + 11*time.Second)
 		x.Frozen = true
+		if u.context == "close-false" {
+			// a graceful close without a poll to carry it is bounded by the 30s close timeout
+			x.Run(x.Now() + 22*time.Second)
+		}
 		for _, t := range x.Panics() {
 			x.Fail("panic%s: thread %s: %v (%s)\n%s", fp, t.Name, t.Panic, id, trimStack(t.Stack))
 		}
@@ -453,7 +525,12 @@ func upBodyFor(u upCase, oracle string) vsched.Body {
 		if u.word != "C" && u.word != "L" {
 			exp = upExpect(u.word)
 		}
-		if u.context == "close" || u.context == "close-late-upgrade" {
+		if u.context == "close" || u.context == "close-late-upgrade" || u.context == "close-false" {
+			if u.context == "close-false" {
+				if cr := rec.CloseReasons(); len(cr) == 1 && cr[0] != "forced close" {
+					x.Fail("close-reason[%s upgrade+close-false got=%q]: graceful close during an upgrade ended with %q (%s)", u.cand, cr[0], cr[0], id)
+				}
+			}
 			// the session was closed by the application at some point: nothing to assert about the switch,
 			// only that exactly one close happened and the candidate did not outlive it
 			if cr := rec.CloseReasons(); len(cr) != 1 {
@@ -594,6 +671,30 @@ func upBodyFor(u upCase, oracle string) vsched.Body {
 				}
 			}
 		}
+		if strings.HasPrefix(u.context, "send-cb") && rec.Count("close") == 0 {
+			// callbacks: each exactly once, in send order, none before the flush event of its packet
+			if strings.Join(cbRan, ",") != "a1,a2,a3" {
+				x.Fail("callbacks-across-upgrade%s: sends a1 a2 a3 with callbacks, callbacks ran %v (session open, transport %s) (%s)", fp, cbRan, rec.Sock.Transport().Name(), id)
+			}
+			flushed := map[string]int{}
+			for _, e := range rec.Events {
+				if e.Name == "flush" {
+					for _, p := range e.Pkts {
+						if p.Type == '4' {
+							if _, dup := flushed[string(p.Data)]; dup {
+								x.Fail("flushed-twice%s: %q (%s)", fp, p.Data, id)
+							}
+							flushed[string(p.Data)] = e.Seq
+						}
+					}
+				}
+			}
+			for i, d := range cbRan {
+				if fs, ok := flushed[d]; !ok || cbSeq[i] <= fs {
+					x.Fail("callback-before-flush%s: callback of %q ran before the flush event of its packet (%s)", fp, d, id)
+				}
+			}
+		}
 		x.Outcome = fmt.Sprintf("switched=%v", switched)
 	}
 }
@@ -711,5 +812,31 @@ func init() {
 				})
 			}
 		}
+	}
+}
+
+// the upgrade scenarios under the outbound (C01), callback (C18) and orderly-close (C12) oracles
+func init() {
+	type reg struct {
+		prop string
+		u    upCase
+	}
+	var regs []reg
+	for _, cand := range []string{"websocket", "webtransport"} {
+		for _, word := range []string{"C", "L"} {
+			regs = append(regs, reg{"C01", upCase{cand, true, word, "send"}}, reg{"C18", upCase{cand, true, word, "send-cb"}}, reg{"C12", upCase{cand, true, word, "close-false"}})
+			regs = append(regs, reg{"C01", upCase{cand, true, word, "send+slowflush"}}, reg{"C18", upCase{cand, true, word, "send-cb+slowflush"}}, reg{"C08", upCase{cand, true, word, "send+slowflush"}})
+		}
+		regs = append(regs, reg{"C12", upCase{cand, false, "PU", "close-false"}}, reg{"C08", upCase{cand, true, "C", "close-false"}}, reg{"C08", upCase{cand, true, "L", "close-false"}}, reg{"C08", upCase{cand, true, "C", "send-cb"}})
+	}
+	for _, r := range regs {
+		r := r
+		register(r.prop, "upgrade/"+strings.ReplaceAll(r.u.id(), " ", "_"), false, func(c *Ctx) {
+			bound, dev := Pick(c, 1, 2), Pick(c, 2, 4)
+			c.ExploreDev(r.u.id(), bound, dev, upBodyFor(r.u, r.prop))
+			c.Sample(r.u.id())
+			c.Res.Distinct = 1
+			c.Note("the C08 scenario (%s candidate, script %q, context %q) with this property's oracle clauses only", r.u.cand, r.u.word, r.u.context)
+		})
 	}
 }
